@@ -7,7 +7,7 @@ EXTENDS Integers, Sequences, TLC, SequencesExt
 CodeTable == { <<"a", 97>>, <<"b", 98>>, <<"1", 49>>, <<"0", 48>>, <<"_", 95>>, <<":", 58>>, <<".", 46>>, <<"+", 43>>, <<"-", 45>>, <<"<", 60>>, <<">", 62>>,
                <<"~", 126>>, <<"=", 61>>, <<"!", 33>>, <<"?", 63>>, <<"$", 36>>, <<"(", 40>>, <<")", 41>>, <<"{", 123>>, <<"}", 125>>, <<"[", 91>>, <<"]", 93>>,
                <<"*", 42>>, <<"/", 47>>, <<"%", 37>>, <<"^", 94>>, <<"#", 35>>, <<"DQ", 34>>, <<"SQ", 39>>, <<"@", 64>>, <<"BT", 96>>, <<"SP", 32>>, <<"TAB", 9>>,
-               <<"NL", 10>>, <<"CR", 13>>, <<"BS", 92>>, <<"CTL", 1>>, <<"E2", 233>>, <<"EMOJI", 128512>>, <<";", 59>>, <<",", 44>>, <<"|", 124>>, <<"&", 38>>, <<"NUL", 0>> }
+               <<"NL", 10>>, <<"CR", 13>>, <<"BS", 92>>, <<"CTL", 1>>, <<"E2", 233>>, <<"EMOJI", 128512>>, <<"NBSP", 160>>, <<";", 59>>, <<",", 44>>, <<"|", 124>>, <<"&", 38>>, <<"NUL", 0>> }
 CodeOf(c) == (CHOOSE p \in CodeTable : p[1] = c)[2]
 NameOf(n) == (CHOOSE p \in CodeTable : p[2] = n)[1]
 Codes(cs) == [i \in DOMAIN cs |-> CodeOf(cs[i])]
